@@ -1,8 +1,10 @@
 #!/bin/sh
-# Offline setup: nothing needs building (Python + the installed verus / kani); check the tools and the unit files.
+# Offline setup: check the tools and the unit files; warm the build cache of the bounded comparison harness.
 cd "$(dirname "$0")" || exit 1
 mkdir -p build evidence replays
 command -v verus >/dev/null || { echo "verus not on PATH"; exit 1; }
 command -v cargo-kani >/dev/null 2>&1 || command -v kani >/dev/null 2>&1 || echo "warning: kani not found (C18 kernel check will be UNDECIDED)"
 python3 vf/main.py lint || exit 1
+# optional warm-up: the bounded SQLite comparison harness (C16) is otherwise built on first use (about a minute)
+CARGO_NET_OFFLINE=true python3 vf/main.py dyn-build sqlite_equiv || echo "warning: the bounded SQLite comparison harness did not build (C16 will be UNDECIDED)"
 exit 0
